@@ -164,3 +164,49 @@ fn c01_wiring_n1_p2() {
 fn c01_wiring_n3() {
     covers_matching(c01_wiring(3, 3))
 }
+
+/// completeness, strict: a proof that names the installed set verbatim, inside the window, with accepted
+/// signatures is honoured — and no trap (overflow, missing key) is reachable on the way.
+fn c08_honoured(n: usize) {
+    let env = Env::default();
+    unsafe {
+        REC_CALLS = 0;
+        REC_RET = true;
+    }
+    let inst = any_set(&env, n);
+    let e: u64 = kani::any();
+    let s_ep: u64 = kani::any();
+    let r: u64 = kani::any();
+    kani::assume(1 <= s_ep && s_ep <= e && e - s_ep <= r);
+    let domain = any::b32(1);
+    let data_hash = any::b32(1);
+    let mut ps: Vec<ProofSigner> = Vec::new(&env);
+    let mut i = 0;
+    while i < n {
+        let signed: bool = kani::any();
+        ps.push_back(ProofSigner { signer: inst.signers.at(i).clone(), signature: if signed { ProofSignature::Signed(any::b64(1)) } else { ProofSignature::Unsigned } });
+        i += 1;
+    }
+    let proof = Proof { signers: ps, threshold: inst.threshold, nonce: inst.nonce.clone() };
+    unsafe {
+        EXPECT_PROOF = Some(proof.clone());
+    }
+    let sh = ideal_hash(&inst.clone().to_xdr(&env).0);
+    model::with_contract(&gw(), || {
+        env.storage().instance().set(&DataKey::Epoch, &e);
+        env.storage().instance().set(&DataKey::PreviousSignerRetention, &r);
+        env.storage().instance().set(&DataKey::DomainSeparator, &domain);
+        env.storage().instance().set(&DataKey::MinimumRotationDelay, &kani::any::<u64>());
+        env.storage().persistent().set(&DataKey::EpochBySignersHash(BytesN::from_array(&env, &sh)), &s_ep);
+    });
+    let res = model::with_contract(&gw(), || validate_proof(&env, &data_hash, proof.clone()));
+    kani::assert(res == Ok(s_ep == e), "VERIF:C08,C01:a proof from an installed set inside the retention window is honoured for every retention setting (0 .. u64::MAX) and every epoch");
+    kani::cover!(s_ep < e && r == u64::MAX, "VERIF:reach:old set honoured under an unlimited retention");
+    kani::cover!(s_ep == e && r == 0, "VERIF:reach:latest set honoured under retention 0");
+}
+// HARNESS props=C08,C01 tier=quick profile=gw_wire1 mode=strict shape="honest proof naming the installed set (N=1) inside the window; epochs and retention full u64"
+#[kani::proof]
+#[kani::stub(validate_signatures, stub_validate_signatures)]
+fn c08_honoured_strict_n1() {
+    c08_honoured(1)
+}
